@@ -41,9 +41,10 @@ pub fn same_up_to_ids(a: &[Vec<Rec>], b: &[Vec<Rec>], what: &str) -> Result<(), 
 
 pub fn check_isolation(h: &History) -> CaseResult {
     let flags = Flags { c01: true, c03: false, c13: false, margins: true };
-    // only predict / skip operations take part (lifecycle queries are C03's business)
+    // predict / skip of each scene, plus the tracker-wide operations that move the collection of
+    // expired tracks around (they must not change any scene's grouping either)
     let mut full = h.clone();
-    full.ops.retain(|o| matches!(o, Op::Predict { .. } | Op::Skip { .. }));
+    full.ops.retain(|o| matches!(o, Op::Predict { .. } | Op::Skip { .. } | Op::Wasted | Op::SetAutoWaste(_) | Op::ClearWasted));
     let inter = run_monitored(&full, flags)?;
     let scenes: Vec<u64> = {
         let mut v: Vec<u64> = full.ops.iter().filter_map(scene_of).collect();
@@ -62,7 +63,7 @@ pub fn check_isolation(h: &History) -> CaseResult {
         // projection is run with placeholders for the removed operations
         let mut proj_ops = vec![];
         for o in &full.ops {
-            if scene_of(o) == Some(*s) {
+            if scene_of(o) == Some(*s) || scene_of(o).is_none() {
                 proj_ops.push(o.clone());
             } else {
                 proj_ops.push(Op::Stats);
@@ -100,7 +101,7 @@ pub fn run(env: &Env, rep: &Report) {
     let pool = IsoPool::new(&env.prop, "isolation", std::time::Duration::from_secs(120));
     let n = env.tier.pick(400, 10_000);
     for kind in KINDS {
-        par_generated(rep, "isolation", move || history_opts(kind, false, 40, false), n, workers(), iso_check(&pool, rep));
+        par_generated(rep, "isolation", move || history_opts(kind, true, 60, false), n, workers(), iso_check(&pool, rep));
     }
 }
 
